@@ -46,6 +46,22 @@ func journalSummary(content string) (string, int) {
 	return b.String(), len(errs)
 }
 
+// amountColumns: the distinct start columns of the posting amounts of a journal (one common column expected).
+func amountColumns(content string) []int {
+	j, _ := parser.Parse(content)
+	seen := map[int]bool{}
+	var cols []int
+	for i := range j.Transactions {
+		for k := range j.Transactions[i].Postings {
+			if a := j.Transactions[i].Postings[k].Amount; a != nil && !seen[a.Range.Start.Column] {
+				seen[a.Range.Start.Column] = true
+				cols = append(cols, a.Range.Start.Column)
+			}
+		}
+	}
+	return cols
+}
+
 func formatOnce(content string) string {
 	j, _ := parser.Parse(content)
 	return applyEdits(content, FormatDocument(j, content))
@@ -70,6 +86,10 @@ func TestVerifBounded_FormatIdempotent(t *testing.T) {
 					f1 := formatOnce(doc)
 					if got, _ := journalSummary(f1); got != want {
 						fmt.Printf("BOUNDED-FAIL formatting changes what the journal says: %q is rewritten to %q\nbefore:\n%safter:\n%s", doc, f1, want, got)
+						return
+					}
+					if cols := amountColumns(f1); len(cols) > 1 {
+						fmt.Printf("BOUNDED-FAIL the amounts of the formatted text do not share one column (%v): %q -> %q\n", cols, doc, f1)
 						return
 					}
 					if f2 := formatOnce(f1); f2 != f1 {
